@@ -36,7 +36,7 @@ KINDS = ["inbound_req_basic", "inbound_req_threading", "inbound_req_threading_no
          "connect_failed_async", "cea_rejected", "cer_rejected_no_common_app", "unknown_peer", "ce_timeout",
          "refused_while_stopping", "late_and_unknown_answers", "conn_with_request_closed", "outbound_req_timeout",
          "conn_closed_mid_frame", "inbound_req_raise", "inbound_req_threading_raise",
-         "second_conn_cycles"]
+         "second_conn_cycles", "request_then_garbage"]
 PEER = "peer1.verif.example"
 
 
@@ -265,6 +265,19 @@ class Kind:
                 sp.close()
                 h.settle()
                 first.frames.clear()
+        elif kind == "request_then_garbage":
+            # the connection closes itself (unparseable bytes) while answers to the requests before them are pending
+            for i in range(n):
+                sp = self.connect(i)
+                blob = b""
+                for k in range(3):
+                    hbh, e2e = self.ids()
+                    blob += M.dwr(PEER, REALM, hbh=hbh, e2e=e2e)
+                sp.send(blob + b"\x00" * 20)
+                h.settle()
+                if i % 2:
+                    sp.close()
+                    h.settle()
         elif kind == "conn_closed_mid_frame":
             for i in range(n):
                 sp = self.connect(i)
